@@ -17,6 +17,9 @@ type Clause struct {
 	E     Expr
 	Modes []string // nil: all modes
 	Where string   // file:line
+	// Portable: the clause is proved in the function's own mode(s) and may be used by callers verified in another
+	// mode; a separate obligation shows that its bit-vector and integer readings agree.
+	Portable bool
 }
 
 func (c Clause) inMode(m string) bool {
@@ -85,6 +88,14 @@ type FuncContract struct {
 	Assumes   []Clause // trusted assumptions at entry (reported)
 	Asserts   []AssertAt
 	Where     string
+	Split     *SplitSpec
+}
+
+// SplitSpec: postconditions are proved by exhaustive case split on an integer parameter:
+// one obligation per value in [Lo,Hi] plus one for everything outside.
+type SplitSpec struct {
+	Var    string
+	Lo, Hi int
 }
 
 // AssertAt: an intermediate assertion (proof hint) at the head of a loop or
@@ -142,6 +153,10 @@ func mkClause(rest, where string) (Clause, error) {
 	rest = strings.TrimSpace(rest)
 	if m := modeTagRe.FindStringSubmatch(rest); m != nil {
 		c.Modes = strings.Split(m[1], ",")
+		if m[1] == "portable" {
+			c.Modes = nil
+			c.Portable = true
+		}
 		rest = m[2]
 	}
 	if m := labelRe.FindStringSubmatch(rest); m != nil && !strings.HasPrefix(m[2], ":") {
@@ -159,7 +174,7 @@ func mkClause(rest, where string) (Clause, error) {
 
 var topKeywords = map[string]bool{"func": true, "extern": true, "define": true, "declare": true, "axiom": true, "lemma": true, "ghost": true, "smt": true, "end": true}
 var fnKeywords = map[string]bool{"mode": true, "requires": true, "ensures": true, "panics_iff": true, "may_panic": true, "loop": true,
-	"modifies": true, "uses": true, "opt": true, "ghost": true, "on": true, "pure": true, "terminal": true, "prop": true, "assume": true, "assert": true, "vars": true, "assumed": true}
+	"modifies": true, "uses": true, "opt": true, "ghost": true, "on": true, "pure": true, "terminal": true, "prop": true, "assume": true, "assert": true, "vars": true, "assumed": true, "split": true}
 
 // loadContractFile parses one file. goFile: lines are taken from "//@" comments.
 func (cs *Contracts) loadFile(path string, goFile bool) error {
@@ -435,6 +450,17 @@ func (cs *Contracts) loadFile(path string, goFile bool) error {
 				return err
 			}
 			cur.Hooks = append(cur.Hooks, h)
+		case "split":
+			fs := strings.Fields(rest)
+			if len(fs) != 3 {
+				return fmt.Errorf("%s: split VAR LO HI", where)
+			}
+			lo, e1 := strconv.Atoi(fs[1])
+			hi, e2 := strconv.Atoi(fs[2])
+			if e1 != nil || e2 != nil || hi < lo {
+				return fmt.Errorf("%s: bad split bounds", where)
+			}
+			cur.Split = &SplitSpec{fs[0], lo, hi}
 		case "pure":
 			cur.Pure = true
 		case "terminal":
